@@ -213,6 +213,31 @@ def rule_subseq_align(ctx, m):
     bi = [s for s in loop.body if s.k == 'assign' and s.target == ('var', 'best_idx')]
     ok = bool(bi) and bi[0].value == ('call', ('attr', ('var', 'np'), 'argmin'), (('var', 'matching'),), ())
     ctx.check(ok, 'R-PATH', file, 'SubsequenceAlignment._best_matches', 'best-first', 'each round must pick np.argmin(matching)', loop.line)
+    # length limits: a match with segment [b, e] (both inclusive) has e - b + 1 samples; it is rejected iff that is < minlength or > maxlength
+    from .. import sym as _sym
+    seg = [s for s in loop.body if s.k == 'assign' and s.target == ('tuple', (('var', 'b'), ('var', 'e'))) and fmt(s.value) == 'match.segment']
+    lim = {}
+    for st_ in walk_stmts(loop.body):
+        if st_.k != 'if':
+            continue
+        for x in walk_expr(st_.cond):
+            if x[0] == 'bin' and x[1] in ('<', '<=', '>', '>=') and x[3][0] == 'var' and x[3][1] in ('minlength', 'maxlength'):
+                try:
+                    t = _sym.from_ir(x[2], atom=lambda y: y[1] if y[0] == 'var' and y[1] in ('b', 'e') else None)
+                except Exception:  # noqa
+                    t = None
+                # normalise to a strict comparison of an integer length: X >= m  <=>  X + 1 > m ;  X <= m  <=>  X - 1 < m
+                if t is not None and x[1] == '>=':
+                    t = _sym.add(t, _sym.const(1))
+                if t is not None and x[1] == '<=':
+                    t = _sym.sub(t, _sym.const(1))
+                lim[x[3][1]] = (x[1][0], t, st_.line)
+    want_len = _sym.add(_sym.sub(_sym.var('e'), _sym.var('b')), _sym.const(1))
+    okl = bool(seg) and set(lim) == {'minlength', 'maxlength'} and lim['minlength'][0] == '<' and lim['maxlength'][0] == '>' \
+        and lim['minlength'][1] == want_len and lim['maxlength'][1] == want_len
+    ctx.check(okl, 'R-PATH', file, 'SubsequenceAlignment._best_matches', 'length limits',
+              'a match over series samples b..e (inclusive) has e - b + 1 samples and must be rejected exactly when that is < minlength or > maxlength; found %s'
+              % {k: (v[0], _sym.show(v[1]) if v[1] is not None else None) for k, v in lim.items()}, loop.line)
 
 
 # ================================================================================================= C14
@@ -462,6 +487,12 @@ def rule_kmeans(ctx, m):
             okr = g.body[-1].k == 'return' and g.body[-1].value == ('tuple', (names[0], names[1]))
             dcall = [s for s in body if s.k == 'assign' and s.target == ('var', 'd')]
             oka = bool(dcall) and dcall[0].value[0] == 'call' and dcall[0].value[2][:2] == (('var', 'series'), lp[0].target[1][1]) and lp[0].iter[2] == (init[0].target[1][1],)
+            # the DTW options travel in the third member of the work item and must reach the distance call
+            optv = init[0].target[1][2] if len(init[0].target[1]) >= 3 else None
+            okopt = bool(dcall) and optv is not None and any(k is None and v == optv for k, v in dcall[0].value[3])
+            ctx.check(okopt, 'R-FWD', file, q, 'options to the distance call',
+                      'the helper receives (series, means, options) and must call the distance with **options; otherwise window/penalty/psi are ignored when deciding '
+                      'which mean is nearest', g.line)
             ok = okinit and okc and okr and oka
             shapes[q] = dotted(dcall[0].value[1]) if dcall else None
         ctx.check(ok, 'R-PATH', file, q, 'nearest-mean helper',
@@ -912,9 +943,18 @@ def rule_series_container(ctx, m):
               'expected detected_ndim to be set on the ndarray, list-of-arrays and list-of-lists paths (found %d stores)' % nd, f.line)
     pm, g = _func(m, 'dtaidistance.util', 'SeriesContainer.c_data_compat')
     repl = [s for s in walk_stmts(g.body) if s.k == 'assign' and s.target[0] == 'idx' and s.target[1] == ('attr', ('var', 'self'), 'series')]
-    ok = all(fmt(s.value) == 'serie' for s in repl) and any('order=' in fmt(s.value) for s in walk_stmts(g.body) if s.k == 'assign' and s.target == ('var', 'serie'))
+    ok = bool(repl) and all(fmt(s.value) == 'serie' for s in repl) and any('order=' in fmt(s.value) for s in walk_stmts(g.body) if s.k == 'assign' and s.target == ('var', 'serie'))
     guard = any(s.k == 'if' and 'c_contiguous' in fmt(s.cond) for s in walk_stmts(g.body))
-    ctx.check(ok and guard, 'R-SAN', pm.path, 'SeriesContainer.c_data_compat', 'contiguity repair', 'non C-contiguous members must be replaced by C-ordered copies before pointers are taken', g.line)
+    # every `if not X.flags.c_contiguous:` block makes a C-ordered copy AND installs it where the pointers are taken from (self.series / self.series[i])
+    blocks = [s for s in walk_stmts(g.body) if s.k == 'if' and 'c_contiguous' in fmt(s.cond) and fmt(s.cond).lstrip('(').startswith('not')]
+    okb = len(blocks) >= 2
+    for b in blocks:
+        copies = [t for t in b.then if t.k == 'assign' and ('order=' in fmt(t.value))]
+        installs = [t for t in b.then if t.k == 'assign' and fmt(t.target).startswith('self.series')]
+        okb = okb and bool(copies) and bool(installs) and (installs[0] is copies[0] or (copies[0].target[0] == 'var' and installs[0].value == copies[0].target))
+    ctx.check(ok and guard and okb, 'R-SAN', pm.path, 'SeriesContainer.c_data_compat', 'contiguity repair',
+              'non C-contiguous members must be replaced by C-ordered copies, and the copy must be stored back into self.series (the object the pointers are taken from), '
+              'in each of the list and array branches', g.line)
     pm, v = _func(m, 'dtaidistance.util_numpy', 'verify_np_array')
     ok = any(s.k == 'if' and 'c_contiguous' in fmt(s.cond) and any(t.k == 'assign' and "copy(order='C')" in fmt(t.value) for t in s.then) for s in walk_stmts(v.body))
     ret = [s for s in v.body if s.k == 'return']
@@ -966,6 +1006,22 @@ def rule_nw_border(ctx, m):
     factory = pm.funcs.get('make_substitution_fn')
     if default_f is None or unwrap is None or factory is None:
         raise AnalysisError('anchor vanished: substitution functions of alignment.py')
+    # the two dictionary branches of the generated function ((a, b) and the reversed key (b, a)) score alike: same orientation modifier
+    forms = set()
+    nlook = 0
+    for s_ in walk_stmts(unwrap.body):
+        if s_.k == 'return' and s_.value is not None and s_.value[0] == 'tuple' and len(s_.value[1]) == 2:
+            first = s_.value[1][0]
+            look = [x for x in walk_expr(first) if x[0] == 'idx' and x[1] == ('var', 'matrix')]
+            if look:
+                nlook += 1
+                txt = fmt(first)
+                for lk in look:
+                    txt = txt.replace(fmt(lk), 'matrix[K]')
+                forms.add(txt)
+    ctx.check(nlook >= 2 and len(forms) == 1, 'R-TAB', pm.path, 'make_substitution_fn', 'dictionary branches agree',
+              'a pair found as (a, b) and a pair found through the reversed key (b, a) must be scored by the same expression of the dictionary value '
+              '(the max/min orientation modifier applies to both); found %s' % sorted(forms), factory.line)
     ind_default = {fmt(x) for x in _indel_components(pm, default_f)}
     ind_custom = {fmt(x) for x in _indel_components(pm, unwrap)}
     ctx.count('substitution indel components', len(ind_default) + len(ind_custom))
